@@ -307,6 +307,20 @@ def c01_roundtrip(args):
                 return 'tokens differ across options at indent=%r compact=%r' % (indent, compact)
             if penman.format(penman.parse(s), indent=indent, compact=compact) != s:
                 return 'formatted text is not a fixed point at indent=%r compact=%r' % (indent, compact)
+            # the codec's methods and the iterating reader are the same functions under other names
+            from penman.codec import PENMANCodec
+            codec = PENMANCodec()
+            if codec.format(t, indent=indent, compact=compact) != s:
+                return 'PENMANCodec.format differs from penman.format at indent=%r compact=%r' % (indent, compact)
+            for name, rd in (('PENMANCodec.parse', codec.parse),
+                             ('iterparse', lambda x: list(penman.iterparse(x))[0]),
+                             ('PENMANCodec.iterparse', lambda x: list(codec.iterparse(x))[0])):
+                try:
+                    t3 = rd(s)
+                except Exception as e:
+                    return '%s raised %s at indent=%r compact=%r' % (name, type(e).__name__, indent, compact)
+                if t3.node != t.node or t3.metadata != t.metadata:
+                    return '%s reads a different tree at indent=%r compact=%r' % (name, indent, compact)
     return None
 
 
@@ -345,6 +359,23 @@ C01_METAS = [{}, {'snt': 'hello world'}, {'id': '1', 'snt': 'a ; ( ) " # b'},
              {'k': 'a : b'}, {'k#': '#'}, {'k': ':v'}, {'a': '1', 'b': '2', 'c': ''}]
 
 
+C01_STRCH = [' ', '  ', '\t', 'a', '(', ')', '#', ':', '~', '/', '\\"', '\\\\', '\xe9', '\xa0', '\u2028', '\x85', '\x1c', ';', '^']
+
+
+def c01_rand_string(rnd):
+    """a string atom over the whole of the grammar's string characters: blanks of every kind that does
+    not end a line (runs of spaces, tabs, no-break and other Unicode spaces), delimiters, escapes"""
+    return '"' + ''.join(rnd.choice(C01_STRCH) for _ in range(rnd.randint(0, 6))) + '"'
+
+
+def c01_rand_meta(rnd):
+    meta = {}
+    for key in rnd.sample(['snt', 'id', 'tok', 'k#'], rnd.randint(1, 3)):
+        words = [rnd.choice(['w', '(', ')', '"', '#', ';', 'x:y', '~1', '\xa0', 'a\u2028b', '\x1c']) for _ in range(rnd.randint(0, 4))]
+        meta[key] = ''.join(w + rnd.choice([' ', '  ', '\t', ' \t ']) for w in words).strip(' \t')
+    return meta
+
+
 def c01_gen(rnd, depth, counter):
     v = 'v%d' % counter[0]
     counter[0] += 1
@@ -360,6 +391,8 @@ def c01_gen(rnd, depth, counter):
             bs.append((r, c01_gen(rnd, depth + 1, counter)))
         elif rnd.random() < 0.05:
             bs.append((r, (None, [])))
+        elif rnd.random() < 0.15:
+            bs.append((r, c01_rand_string(rnd) + rnd.choice(['', '', '~e.1'])))
         else:
             bs.append((r, rnd.choice(C01_ATOMS)))
     return (v, bs)
@@ -374,7 +407,7 @@ def run_C01(R):
                                   'indents': (None, -1, 0, 2) if R.quick else (None, -1, 0, 1, 2, 3, 7)})
     for it in range(600 if R.quick else 8000):
         node = c01_gen(R.rnd, 0, [0])
-        meta = R.rnd.choice(C01_METAS)
+        meta = R.rnd.choice(C01_METAS) if R.rnd.random() < 0.6 else c01_rand_meta(R.rnd)
         R.check('C01.roundtrip', {'node': node, 'meta': meta})
     R.check('C01.roundtrip', {'node': (None, []), 'meta': {}})
     alpha = '()/:~"\\#a1 \n'
@@ -422,6 +455,11 @@ def c09_containers(args):
         'str': lambda: penman.loads(text, model=model),
         'lines': lambda: list(penman.iterdecode(text.split('\n'), model=model)),
         'lines+nl': lambda: list(penman.iterdecode([l + '\n' for l in text.split('\n')], model=model)),
+        # the other two line terminators, kept on the lines / in the stream (a file opened with newline='')
+        'lines+crlf': lambda: list(penman.iterdecode([l + '\r\n' for l in text.split('\n')], model=model)),
+        'lines+cr': lambda: list(penman.iterdecode([l + '\r' for l in text.split('\n')], model=model)),
+        'str+crlf': lambda: penman.loads(text.replace('\n', '\r\n'), model=model),
+        'stringio+crlf': lambda: penman.load(io.StringIO(text.replace('\n', '\r\n'), newline=''), model=model),
         'stringio': lambda: penman.load(io.StringIO(text), model=model),
     }
 
@@ -621,14 +659,21 @@ C19_ROLES = [':instance', ':ARG0', ':op1', ':mod-of', ':x.y', ':A']
 @check('C19.roundtrip')
 def c19_roundtrip(args):
     ts = [tuple(t) for t in args['triples']]
+    # every public way of writing / reading a conjunction: the module functions and the codec's methods
+    from penman.codec import PENMANCodec
+    codec = PENMANCodec()
+    writers = (('penman.format_triples', penman.format_triples), ('PENMANCodec.format_triples', codec.format_triples))
+    readers = (('penman.parse_triples', penman.parse_triples), ('PENMANCodec.parse_triples', codec.parse_triples))
     for ind in (True, False):
-        s = penman.format_triples(ts, indent=ind)
-        try:
-            back = penman.parse_triples(s)
-        except Exception as e:
-            return 'parse_triples raised %s on %r' % (type(e).__name__, s[:80])
-        if back != ts:
-            return 'round trip differs (indent=%r): %r -> %r' % (ind, s[:80], back[:3])
+        for wname, w in writers:
+            s = w(list(ts), indent=ind)
+            for rname, rd in readers:
+                try:
+                    back = rd(s)
+                except Exception as e:
+                    return '%s raised %s on %r' % (rname, type(e).__name__, s[:80])
+                if back != ts:
+                    return 'round trip differs (%s, %s, indent=%r): %r -> %r' % (wname, rname, ind, s[:80], back[:3])
     return None
 
 
@@ -649,6 +694,8 @@ def run_C19(R):
     for it in range(1500 if R.quick else 20000):
         ts = [(R.rnd.choice(['a', 'b1', 'x-y', 'é']), R.rnd.choice(C19_ROLES),
                R.rnd.choice(C19_SYMS)) for _ in range(R.rnd.randint(1, 4))]
+        if R.rnd.random() < 0.3:
+            ts.insert(R.rnd.randint(0, len(ts)), R.rnd.choice(ts))     # a conjunct written twice
         R.check('C19.roundtrip', {'triples': ts})
     for src in C09_SRC:
         g = penman.decode(src)
